@@ -860,3 +860,25 @@ def BLOCK_SCRIPT(K=0, horizon=5, ops=None):
     s['script'] = [[0.75, 2, ['block', 'M1', True]], [1.25, 2, ['block', 'M1', False]],
                    [2.75, 2, ['block', 'M1', True]], [3.125, 2, ['block', 'M1', False]]]
     return s
+
+
+def BATCHSLOW(K=0, horizon=13, ops=None):
+    '''Batches of 2 re-packed into 3 (every second output leaves a remainder in the input slot) in front of a slow
+    machine: the source is refused while the remainder is there and must be woken when it has moved on.'''
+    devs = [src('S', 1, pattern=[2]), batcher('PB', ['S'], 3), proc('M', ['PB'], 5), sink('K', ['M'])]
+    if ops is None:
+        ops = [('fail', 'M', 0), ('restore', 'M')]
+    return spec(f'BATCHSLOW[K{K}]', devs, horizon, ops, K)
+
+
+def RES3L(K=0, horizon=5, ops=None):
+    '''Three separate lines sharing ONE unit: A holds it, B and C queue for it in that order, B is shut down (scripted)
+    while it waits, A releases: C must be served although B is asked first and cannot take it.'''
+    devs = [src('S1', 2), proc('A', ['S1'], 1, resources={'r': 1}), sink('K1', ['A']),
+            src('S2', 2.25), proc('B', ['S2'], 1, resources={'r': 1}), sink('K2', ['B']),
+            src('S3', 2.5), proc('C', ['S3'], 1, resources={'r': 1}), sink('K3', ['C'])]
+    if ops is None:
+        ops = [('block', 'C', True), ('block', 'C', False), ('fail', 'A', 0), ('restore', 'A')]
+    s = spec(f'RES3L[K{K}]', devs, horizon, ops, K, pools={'r': 1})
+    s['script'] = [[2.75, 2, ['shutdown', 'B']], [4.25, 2, ['restore', 'B']]]
+    return s
